@@ -58,7 +58,9 @@ func probe() {
 		case 2:
 			r.outs[0].kube.PodName = "ghost"
 		case 3:
+			// an untrusted account asking for the identity running on its own node
 			r.outs[0].kube = kinfo("p2", "c", "u3", "d")
+			r.imp = "s:" + wire.Enc("spiffe://cluster.local/ns/c/sa/d")
 		case 4:
 			r.cluster = "c2"
 		case 5:
